@@ -319,6 +319,10 @@ def run(ctx):
             r12_2(ctx, fx)
             r12_4(ctx, fx)
             r12_5(ctx, fx)
+            # "none is skipped / no duplicate" also rests on the framed substream every notification travels through: the flush
+            # completeness and stash discipline of Substream::poll_flush (rule R04.4, stated in rules/C04.py) is evaluated here as well
+            import C04
+            C04.r04_4(ctx, fx)
         r12_3(ctx, fx)
     ctx.assume("tokio mpsc channels are FIFO per sender and try_send never waits; PollSender::send_item panics without a reserved slot")
     ctx.assume("C04 R04.1: a frame larger than the codec maximum is an error before allocation")
